@@ -15,12 +15,14 @@ K5 cffi_call_python zeroes size_of_result bytes on every failure; generated size
    is sizeof(result type) or 0 for void.
 K6 GIL ensure/release paired around the call on all paths.
 """
+import ast
 import re
 
 from ..cast import cx, rules, absint
 from ..cast.cfg import cfg_of, stmt_text
 from ..cast.loader import backend_tu
 from .. import gen
+from ..pyast.index import cffi_mod
 
 MAY_SET = {'PyObject_CallFunctionObjArgs', 'convert_from_object_fficallback', 'PyObject_Call', 'PyObject_CallObject', 'PyErr_NormalizeException',
            'PyErr_Restore', 'PyErr_SetString', 'PyErr_Format', 'PyErr_SetObject', 'PyErr_SetNone', 'PyErr_NoMemory'}
@@ -336,6 +338,21 @@ def k7(run, tu):
                    'calls seen: %s -- a partial initialiser ([1] for struct {int a, b, c;}) leaves the other fields as they were in the result buffer' % [(x[0], x[1]) for x in seq])
 
 
+WIDER_THAN_A_SLOT = {'long double': 'long double', '_cffi_double_complex_t': 'double _Complex'}       # x86-64: 16 bytes each (C06 witnesses the sizes)
+
+
+def k8(run):
+    """extern "Python" stubs give every argument an 8-byte slot: a primitive wider than that has to be passed by address (as structs are),
+    by the generator and by the reader alike, or it overlaps the next slot / the end of the buffer"""
+    m = cffi_mod('recompiler')
+    fn = m.find('Recompiler._extern_python_decl.may_need_128_bits')
+    names = {c.value for c in ast.walk(fn) if isinstance(c, ast.Constant) and isinstance(c.value, str)}
+    for prim, cname in sorted(WIDER_THAN_A_SLOT.items()):
+        run.ob('K4/wide-primitives-passed-by-address', 'Recompiler._extern_python_decl', '%s (%s)' % (cname, prim), prim in names, m.where(fn),
+               'a %s argument is stored with `*(%s *)(p + 8*i) = a_i` into an 8-byte slot of a buffer of 8*nargs bytes: it overwrites the next argument, or 8 bytes past the '
+               'buffer when it is the last one (and a %s result is read from a buffer that may be only 8 bytes)' % (cname, cname, cname))
+
+
 def check(run):
     run.explanation = (
         'Must-pass-through rules on the CFG of the callback trampoline: from the `error:` label every path delivers the '
@@ -350,6 +367,7 @@ def check(run):
     k2(run, tu)
     k3(run, tu)
     k7(run, tu)
+    k8(run)
     n = k4_k5_generated(run, tu, run.tier == 'thorough')
     run.need(n >= 9, 'extern "Python" stubs in the corpus: %d' % n)
     k5_k6(run, tu)
